@@ -1,6 +1,7 @@
 import EpModel.Lemmas.CodecNetIpv6
 import EpModel.Lemmas.CodecNetIpv6Frag
 import EpModel.Lemmas.CodecNetIpv4
+import EpModel.Lemmas.CodecNetAuth
 /-
   C08 (network-layer half) — every header value survives encode → decode unchanged.
 
@@ -297,5 +298,108 @@ example : Ipv4Header.ChecksumOk Ipv4Header.sampleMax := by
   decide
 
 end Ipv4
+
+/-! ## IpAuthHeader -/
+namespace Auth
+open EpModel.Lemmas.CodecNet.Auth
+
+/-- `to_bytes` (whole 1016 byte buffer appended, then `set_len`) and `write` (fixed part, then
+    `raw_icv()`) produce the same `header_len()` = 12 + ICV bytes; `raw_icv()` is the ICV. -/
+theorem encoders_agree (h : IpAuthHeader) (wf : h.WF) :
+    h.toBytes = h.writeOut ∧ h.toBytes.length = h.headerLen ∧ h.rawIcvAcc = h.rawIcv := by
+  refine ⟨?_, ?_, rawIcvAcc_eq h wf⟩
+  · rw [toBytes_eq h wf]; unfold IpAuthHeader.writeOut; rw [rawIcvAcc_eq h wf]
+  · rw [toBytes_length h wf, headerLen_eq h wf]
+
+theorem decode_encode (h : IpAuthHeader) (tail : Bytes) (wf : h.WF) :
+    IpAuthHeader.fromSlice (h.toBytes ++ tail) = .ok (h, tail) := by
+  unfold IpAuthHeader.fromSlice
+  rw [slice_of_toBytes h tail wf]
+  simp only [toHeader_toBytes h wf]
+  rw [List.drop_left' rfl]
+
+/-- the reserved bytes written out: bytes 2 and 3 are zeroed, nothing else. -/
+theorem maskReserved_spec (b0 b1 b2 b3 : UInt8) (r : Bytes) :
+    maskReserved .ipAuth (b0 :: b1 :: b2 :: b3 :: r) = b0 :: b1 :: 0 :: 0 :: r :=
+  maskReserved_eq b0 b1 b2 b3 r
+
+theorem decoded_wf (b : Bytes) (h : IpAuthHeader) (rest : Bytes)
+    (hd : IpAuthHeader.fromSlice b = .ok (h, rest)) : h.WF := by
+  obtain ⟨hlen, hp, hfull, rfl, rfl⟩ := fromSlice_ok b h rest hd
+  have := bAt_lt b 1
+  refine ⟨bAt_lt _ _, be32_lt _ _, be32_lt _ _, ?_, ?_⟩ <;> simp <;> omega
+
+/-- re-encoding an accepted byte string reproduces its first `(payload_len+2)*4` bytes except for
+    the two reserved bytes, and decoding again gives the same value. -/
+theorem encode_decode (b : Bytes) (h : IpAuthHeader) (rest : Bytes)
+    (hd : IpAuthHeader.fromSlice b = .ok (h, rest)) :
+    h.toBytes = maskReserved .ipAuth (b.take h.headerLen) ∧
+      IpAuthHeader.fromSlice (h.toBytes ++ rest) = .ok (h, rest) := by
+  have hwf := decoded_wf b h rest hd
+  refine ⟨?_, decode_encode _ _ hwf⟩
+  rw [headerLen_eq h hwf]
+  obtain ⟨hlen, hp, hfull, rfl, rfl⟩ := fromSlice_ok b h rest hd
+  have hlt := bAt_lt b 1
+  have hL : 12 + ((b.take ((bAt b 1 + 2) * 4)).drop 12).length = (bAt b 1 + 2) * 4 := by
+    simp; omega
+  simp only [hL]
+  obtain ⟨b0, b, rfl⟩ := exists_cons b (by omega)
+  obtain ⟨b1, b, rfl⟩ := exists_cons b (by simp at hlen; omega)
+  obtain ⟨b2, b, rfl⟩ := exists_cons b (by simp at hlen; omega)
+  obtain ⟨b3, b, rfl⟩ := exists_cons b (by simp at hlen; omega)
+  obtain ⟨b4, b, rfl⟩ := exists_cons b (by simp at hlen; omega)
+  obtain ⟨b5, b, rfl⟩ := exists_cons b (by simp at hlen; omega)
+  obtain ⟨b6, b, rfl⟩ := exists_cons b (by simp at hlen; omega)
+  obtain ⟨b7, b, rfl⟩ := exists_cons b (by simp at hlen; omega)
+  obtain ⟨b8, b, rfl⟩ := exists_cons b (by simp at hlen; omega)
+  obtain ⟨b9, b, rfl⟩ := exists_cons b (by simp at hlen; omega)
+  obtain ⟨b10, b, rfl⟩ := exists_cons b (by simp at hlen; omega)
+  obtain ⟨b11, b, rfl⟩ := exists_cons b (by simp at hlen; omega)
+  simp only [bAt_cons_zero, bAt_cons_succ, be32] at hp hfull hlt ⊢
+  simp only [List.length_cons] at hfull
+  obtain ⟨m, hm⟩ : ∃ m, (b1.toNat + 2) * 4 = m + 12 := ⟨(b1.toNat + 2) * 4 - 12, by omega⟩
+  simp only [hm, List.take_succ_cons, List.drop_succ_cons, List.drop_zero]
+  rw [maskReserved_eq]
+  exact toBytes_decoded _ _ _ _ _ _ _ _ _ _ _ hp (by simp; omega)
+
+/-- the `unwrap()` inside `to_header` cannot fail for any input of `from_slice`. -/
+theorem no_unwrap_panic (b : Bytes) : IpAuthHeader.fromSlice b ≠ .error .panicUnwrap :=
+  fromSlice_no_panic b
+
+/-- slice type and struct decoder agree: same errors, `to_header()` succeeds (no `unwrap` panic)
+    and is the decoded struct, the slice is the consumed prefix. -/
+theorem slice_eq_struct (b : Bytes) :
+    (IpAuthHeader.fromSlice b).map (fun r => (some r.1, r.2)) =
+      (IpAuthHeaderSlice.fromSlice b).map (fun s => (s.toHeader, b.drop s.slice.length)) := by
+  unfold IpAuthHeader.fromSlice
+  cases hs : IpAuthHeaderSlice.fromSlice b with
+  | error e => rfl
+  | ok s =>
+    obtain ⟨h1, h2, h3⟩ := sliceFromSlice_ok b s hs
+    simp only [toHeader_eq s h1 h2 h3, Except.map]
+
+/-- the slice accessors are the fields of `to_header()`. -/
+theorem slice_accessors (s : IpAuthHeaderSlice) (h : IpAuthHeader) (hh : s.toHeader = some h) :
+    h.nextHeader = s.nextHeader ∧ h.spi = s.spi ∧ h.sequenceNumber = s.sequenceNumber ∧
+      h.rawIcv = s.rawIcv := by
+  unfold IpAuthHeaderSlice.toHeader IpAuthHeader.new at hh
+  split at hh
+  · rename_i h' heq
+    split at heq
+    · simp at heq
+    · split at heq
+      · simp at heq
+      · simp only [Except.ok.injEq] at heq
+        simp only [Option.some.injEq] at hh
+        subst hh; subst heq
+        exact ⟨rfl, rfl, rfl, rfl⟩
+  · simp at hh
+
+example : IpAuthHeader.sampleMax.rawIcv.length = 1016 := List.length_replicate
+example : IpAuthHeader.WF IpAuthHeader.sampleMax := by
+  have hl : IpAuthHeader.sampleMax.rawIcv.length = 1016 := List.length_replicate
+  refine ⟨by decide, by decide, by decide, ?_, ?_⟩ <;> rw [hl] <;> decide
+
+end Auth
 
 end EpModel.Props.C08Net
